@@ -106,7 +106,8 @@ def flatten_c10(events):
             c = sc["cfg"]
             out.append(rec(t="reset", n=int(sc.get("id", 0)), site=c["mode"], b1="dc" in c["media"],
                            b2="audio" in c["media"], b3="video" in c["media"], x=c["bundle"], sig=c["mux"],
-                           peer=c["ice"], b4=bool(c["latching"]), reason=c["compat"], inst=c["offerer"]))
+                           peer=c["ice"], b4=bool(c["latching"]), reason=c["compat"], inst=c["offerer"],
+                           m=1 if c.get("sched", "plain") == "slowSetRemote" else 0))
             continue
         if comp == "life" and ev == "end":
             out.append(rec(t="end", b1=bool(e.get("signal_ok")), b2=bool(e.get("connected")),
